@@ -21,7 +21,11 @@ for pid in sorted(p.stem for p in (common.VERIF / "harness" / "drivers").glob("C
         except Exception as e:
             print(f"translator for {pid} failed closed: {e!r}")
 common.write_coqproject()
-ok, log = common.make(["all"], timeout=3000)
+# -k: a generated file the translators could not produce (or a proof about it that no longer checks) on a CHANGED tree must not keep
+# the rest of the development from being built; every check rebuilds and judges its own obligations (Props/<id>.vo) afterwards
+ok, log = common.make(["-k", "all"], timeout=3000)
 print(log[-3000:])
-sys.exit(0 if ok else 1)
+if not ok:
+    print("setup: some files did not build (see above); the checks report the obligations concerned")
+sys.exit(0)
 PY
